@@ -322,7 +322,13 @@ def r12_8(chk, tier):
         a = pick(fj, name, 'jsonpath_selector.hpp'); b = pick(fm, name, 'jmespath.hpp')
         chk.require(a is not None and b is not None, 'R12.8: slice::%s not found in one of the two libraries' % name)
         chk.analysed(a); chk.analysed(b)
-        ea, eb = guarded_effects(a), guarded_effects(b)
+        # path summaries (locals substituted, conditional expressions split into paths) when both functions are in the fragment,
+        # else the statement-level guarded effects
+        pa, pb = A.path_summaries(C.CFG(a['body']), a['body']), A.path_summaries(C.CFG(b['body']), b['body'])
+        if pa is not None and pb is not None:
+            ea = set((x[0], ' ; '.join(x[1] + (x[2],))) for x in pa); eb = set((x[0], ' ; '.join(x[1] + (x[2],))) for x in pb)
+        else:
+            ea, eb = guarded_effects(a), guarded_effects(b)
         site = 'include/jsoncons_ext slice::%s jsonpath vs jmespath' % name
         if ea == eb: chk.ok('R12.8', site, {'effects': len(ea)})
         else:
